@@ -579,14 +579,21 @@ Section ListStep.
   Definition upd_entry (mk : list scalar) (e' : option tree) (es : list (list scalar * tree)) :=
     match e' with Some e'' => tl_insert mk e'' es | None => es end.
 
-  (* insertAndGetKey, then the rest of the path inside the new entry *)
+  (* insertAndGetKey, then the rest of the path inside the entry under the new key: the one the
+     map holds already, else the new entry *)
   Definition insert_new_f (es : list (list scalar * tree)) : option tree * result nat :=
     if s_init o then
       match make_entry env fo ko sfs keys ek with
       | Ok (mk, nfs) =>
           if existsb nan_key mk then (Some (TList (tl_insert mk (TCont nfs) es)), Panic) else
-          let '(e', r) := SR f s (Some (TCont nfs)) prest in
-          (Some (TList (upd_entry mk e' es)), r)
+          match tl_find mk es with
+          | Some e_old =>
+              let '(e', r) := SR f s (Some e_old) prest in
+              (Some (TList (upd_entry mk e' es)), r)
+          | None =>
+              let '(e', r) := SR f s (Some (TCont nfs)) prest in
+              (Some (TList (upd_entry mk e' es)), r)
+          end
       | Err => (Some (TList es), Err)
       | Panic => (Some (TList es), Panic)
       end
